@@ -1,5 +1,198 @@
+"""C13 - grouped, conditional and entropy statistics are compositions of pc and pcDelta."""
 from .. import AnalysisBroken
+from ..libmodels import LIB_FACTS
+from ..rules import Equiv, canon_binders, canon_params, check_equiv, close_loops, compare_function, std_rewrites, where_of
+from ..terms import NONE, const, head, is_const, show, strip, strip_all, subst, walk
+
+CLAIMED = True
+LEVEL = "other"
+TECHNIQUE = "rational-function (log / power-sum atoms) and decision-table comparison with a specification; loop-closed fold terms for the pairwise loops; rank (shape) analysis of the squareform arguments"
+TEXT = ("Decides that renyi2_entropy is -log(X)/log(base) (-log(X) for base None) with X chosen by the documented table (pc of the column, pc_joint of the "
+        "columns, pc_conditional with forwarded kwargs) and that a non-positive base raises first; stdrenyi2_entropy is stdpc/pc/log(base) resp. the joint "
+        "forms; pc_conditional is sum_g w_g^2 pc_g / sum_g w_g^2 with all-ones default weights, groups with fewer than two rows filtered before the "
+        "per-group apply, NaN when fewer than two rows remain, and the per-group callee by the documented table; pc_grouped_cross takes the pairs of "
+        "itertools.combinations over the same sorted group list that provides the labels, calls pc / pc_joint with (d1, d2) in order, puts the "
+        "condensed vector through squareform and NaN on the diagonal; pcDelta_grouped applies pcDelta per group with the bin edges (minus the last) as "
+        "index and the default index for integer bins; pcDelta_grouped_cross's condensed form is indexed by the pair names in enumeration order and its "
+        "square form is squareform of the pair vector with pcDelta_grouped on the diagonal - which needs rank-1 input. Grade A (formulas) / B (glue).")
+NOTE = ("Trusted: pandas groupby iterates / applies in sorted key order and filter() keeps whole groups; scipy squareform (libmodels); numpy broadcasting of weights and "
+        "per-group values in group order. Known finding D10 (recorded, not repaired): the square form of pcDelta_grouped_cross receives a rank-2 array whenever bins is not 0.")
+
+S = "pyrepseq.stats."
+SPEC = '''
+def renyi2_entropy(df, features, by=None, base=2.0, **kwargs):
+    if base is not None and base <= 0:
+        raise ValueError("base")
+    if not by:
+        if type(features) != list:
+            x = pc(df[features])
+        else:
+            x = pc_joint(df, features)
+    else:
+        x = pc_conditional(df, by, features, **kwargs)
+    if base is not None:
+        return -np.log(x) / np.log(base)
+    return -np.log(x)
+
+def stdrenyi2_entropy(df, features, base=2.0, **kwargs):
+    if base is not None and base <= 0:
+        raise ValueError("base")
+    if type(features) != list:
+        s = stdpc(df[features]) / pc(df[features])
+    else:
+        s = stdpc_joint(df, features, **kwargs) / pc_joint(df, features)
+    if base is not None:
+        return s / np.log(base)
+    return s
+
+def pc_conditional(df, by, on, group_weights=None):
+    if type(by) == list and len(by) == 1:
+        by = by[0]
+    kept = df.groupby(by).filter(lambda x: len(x) > 1)
+    if len(kept) < 2:
+        return np.nan
+    if type(on) == list:
+        pcs = kept.groupby(by).apply(lambda x: pc_joint(x, on))
+    else:
+        pcs = kept.groupby(by).apply(lambda x: pc(x[on]))
+    if group_weights is None:
+        w = np.ones(len(kept[by].value_counts()))
+    else:
+        w = group_weights
+    return np.sum(w ** 2 * pcs) / np.sum(w ** 2)
+
+def pc_grouped_cross(df, by, on):
+    groups = sorted(list(df.groupby(by)))
+    data = []
+    for (name1, d1), (name2, d2) in itertools.combinations(groups, 2):
+        if type(on) == list:
+            data.append(pc_joint(d1, on, d2))
+        else:
+            data.append(pc(d1[on], d2[on]))
+    square = squareform(np.array(data))
+    np.fill_diagonal(square, np.nan)
+    names = [name for name, dfg in groups]
+    return pd.DataFrame(square, index=names, columns=names)
+
+def pcDelta_grouped(df, by, seq_columns, **kwargs):
+    def within(dfg):
+        edges = kwargs.get("bins")
+        if edges is None or isinstance(edges, int):
+            return pd.Series(pcDelta(dfg[seq_columns], **kwargs), name="Delta", index=None)
+        return pd.Series(pcDelta(dfg[seq_columns], **kwargs), name="Delta", index=edges[:-1])
+    return df.groupby(by).apply(within)
+
+def pcDelta_grouped_cross(df, by, seq_columns, condensed=False, **kwargs):
+    groups = sorted(list(df.groupby(by)))
+    data = []
+    index = []
+    for (name1, d1), (name2, d2) in itertools.combinations(groups, 2):
+        index.append([name1, name2])
+        data.append(pcDelta(d1[seq_columns], d2[seq_columns], **kwargs))
+    if condensed:
+        return pd.DataFrame(np.array(data), index=pd.MultiIndex.from_tuples(index, names=["group1", "group2"]))
+    square = squareform(np.array(data))
+    np.fill_diagonal(square, pcDelta_grouped(df, by, seq_columns=seq_columns, **kwargs))
+    names = [name for name, dfg in groups]
+    return pd.DataFrame(square, index=names, columns=names)
+'''
+
+
+def vec_cond(t):
+    t = strip(t)
+    if head(t) == "call":
+        f = strip(t[1])
+        if f == ("glob", "numpy.ones"):
+            return True
+        if head(f) == "attr" and f[2] == "apply":
+            return True
+    return head(t) == "param" and t[1] == "#3"
 
 
 def run(r):
-    raise AnalysisBroken("rule set for C13 not implemented yet (fail-closed stub)")
+    rep = r.rep
+    rep.explanation = "The six functions were reduced to decision tables with rational-function / loop-closed leaves and compared with the specification; the rank of every squareform argument was inferred."
+    rep.trust(LIB_FACTS["groupby"], LIB_FACTS["squareform"], "itertools.combinations(groups, 2) enumerates pairs in the lexicographic order that squareform expects (DESIGN A.7)", "exact arithmetic")
+    rw = std_rewrites() + [canon_binders]
+    compare_function(r, "C13-ENT", "pyrepseq.entropy.renyi2_entropy", SPEC, "renyi2_entropy == -log_base of pc / pc_joint / pc_conditional chosen by the documented table; non-positive base raises first",
+                     eq=Equiv(rewrites=rw), key="entropy")
+    compare_function(r, "C13-ENT", "pyrepseq.entropy.stdrenyi2_entropy", SPEC, "stdrenyi2_entropy == stdpc / pc / ln(base) (joint forms for a list of features)", eq=Equiv(rewrites=rw), key="std entropy")
+    compare_function(r, "C13-COND", S + "pc_conditional", SPEC, "pc_conditional == sum_g w_g^2 pc_g / sum_g w_g^2 over groups with >= 2 rows; uniform default; NaN below two rows", eq=Equiv(vec=vec_cond, rewrites=rw, modelled={"numpy.ones"}), key="conditional")
+    compare_function(r, "C13-CROSS", S + "pc_grouped_cross", SPEC, "pc_grouped_cross[g, h] == pc(group g, group h) over combinations of the sorted groups that also label the frame; NaN diagonal",
+                     eq=Equiv(rewrites=rw, modelled={"itertools.combinations", "builtins.sorted", "scipy.spatial.distance.squareform", "numpy.fill_diagonal"}), key="grouped cross")
+    compare_function(r, "C13-PDG", "pyrepseq.distance.pcDelta_grouped", SPEC, "pcDelta_grouped applies pcDelta per group; index = bin edges without the last, default index for integer / absent bins",
+                     eq=Equiv(rewrites=rw, modelled={"pandas.Series", "builtins.isinstance"}), key="grouped pcDelta")
+    compare_function(r, "C13-PDC", "pyrepseq.distance.pcDelta_grouped_cross", SPEC, "pcDelta_grouped_cross: per-pair two-collection pcDelta in combination order; condensed form indexed by pair names; square form = squareform with the within-group values on the diagonal",
+                     eq=Equiv(rewrites=rw, modelled={"itertools.combinations", "builtins.sorted", "scipy.spatial.distance.squareform", "numpy.fill_diagonal", "pandas.MultiIndex.from_tuples"}), key="grouped cross pcDelta")
+    for rule in ("C13-ENT", "C13-COND", "C13-CROSS", "C13-PDG", "C13-PDC"):
+        rep.floor(rule, 1)
+    # ---- SHP: squareform needs a rank-1 (condensed) argument
+    n = 0
+    for q in (S + "pc_grouped_cross", "pyrepseq.distance.pcDelta_grouped_cross"):
+        s = r.A.summary(q)
+        for e in s.calls("scipy.spatial.distance.squareform"):
+            n += 1
+            arg = close_loops(s, strip(e["term"])[2][0])
+            rk, why = rank_of(r, s, arg)
+            rep.ob("C13-SHP", q, rk == 1, "squareform receives a rank-1 vector with one entry per pair of groups for every admissible keyword configuration", where_of(r.P, s.func, e.node),
+                   expected="rank 1 (one scalar per pair)", found=f"rank {rk}: {why}", key="squareform-rank2" if rk != 1 else "squareform rank")
+    rep.require(n >= 2, f"C13-SHP: {n} squareform call sites, floor is 2")
+
+
+def rank_of(r, s, t):
+    """Rank of an array-valued term: np.array(list of X) has rank 1 + rank(X); pc(...) / pc_joint(...) are scalars;
+    pcDelta(..., **kwargs) is a scalar only for bins == 0 and a vector otherwise."""
+    t = strip(t)
+    if head(t) == "call" and strip(t[1]) in (("glob", "numpy.array"), ("glob", "numpy.asarray")) and t[2]:
+        rk, why = rank_of(r, s, t[2][0])
+        return (None if rk is None else rk + 1), why
+    if head(t) == "fold":
+        # list accumulator: rank of the appended element
+        step = strip(t[4])
+        elems = [x for x in walk(step) if head(x) == "mut" and x[1] == "append" and len(x[3]) == 1]
+        if not elems:
+            return None, "accumulator outside the idiom list"
+        ranks = [rank_of(r, s, e[3][0]) for e in elems]
+        rk = max((x[0] for x in ranks if x[0] is not None), default=None)
+        return rk, "; ".join(x[1] for x in ranks)
+    if head(t) == "ite":
+        a, b = rank_of(r, s, t[2]), rank_of(r, s, t[3])
+        if a[0] is None or b[0] is None:
+            return None, a[1] + b[1]
+        return max(a[0], b[0]), a[1] if a[0] >= b[0] else b[1]
+    if head(t) == "call":
+        f = strip(t[1])
+        if head(f) == "glob":
+            if f[1] in ("pyrepseq.stats.pc", "pyrepseq.stats.pc_joint", "pyrepseq.stats.pc_conditional"):
+                return 0, f"{f[1].rsplit('.', 1)[1]}(...) is a scalar"
+            if f[1] == "pyrepseq.distance.pcDelta":
+                kw = dict(t[3])
+                b = kw.get("bins")
+                if b is not None and is_const(b, 0):
+                    return 0, "pcDelta(bins=0) is a scalar"
+                return 1, "pcDelta(...) returns one value per bin unless bins == 0 (bins comes from **kwargs; the default is 24 bins)"
+    return None, f"unknown rank of {show(t, 60)}"
+
+
+from ..selftest import V  # noqa: E402
+
+ST = "pyrepseq/stats.py"
+EN = "pyrepseq/entropy.py"
+DI = "pyrepseq/distance.py"
+VARIANTS = [
+    V("D9-integer-bins-index", DI, "        if isinstance(index, int):\n            index = None\n", "        if isinstance(index, int):\n            index = [index]\n", rule="C13-PDG"),
+    V("weights-not-squared", ST, "adjusted_group_weights = (group_weights**2)/np.sum(group_weights**2)", "adjusted_group_weights = (group_weights)/np.sum(group_weights)", rule="C13-COND"),
+    V("log-base-dropped", EN, "    if base is not None:\n        entropy /= np.log(base) \n", "", rule="C13-ENT"),
+    V("cross-same-group", ST, "            pc_cross_group = pc(d1[on], d2[on])", "            pc_cross_group = pc(d1[on], d1[on])", rule="C13-CROSS"),
+    V("diagonal-not-nan", ST, "    np.fill_diagonal(\n        data_square, np.nan\n    )\n    return pd.DataFrame(data_square, index=names, columns=names)\n\ndef pc_conditional", "    return pd.DataFrame(data_square, index=names, columns=names)\n\ndef pc_conditional", rule="C13-CROSS"),
+    V("names-from-unsorted-groups", ST, "    names = [name for name, dfg in groups]\n    data_square = squareform(data)\n    np.fill_diagonal(\n        data_square, np.nan", "    names = [name for name, dfg in df.groupby(by, sort=False)]\n    data_square = squareform(data)\n    np.fill_diagonal(\n        data_square, np.nan", rule="C13-CROSS"),
+    V("singletons-not-filtered", ST, "    df = df.groupby(by).filter(lambda x: len(x) > 1)\n", "    df = df.groupby(by).filter(lambda x: len(x) > 0)\n", rule="C13-COND"),
+    V("std-entropy-not-divided-by-pc", EN, "        stdentropy = stdpc(df[features])/pc(df[features])", "        stdentropy = stdpc(df[features])", rule="C13-ENT"),
+    V("entropy-sign", EN, "            entropy = -np.log(pc(df[features]))", "            entropy = np.log(pc(df[features]))", rule="C13-ENT"),
+    V("conditional-kwargs-dropped", EN, "        entropy = -np.log(pc_conditional(df, by, features, **kwargs))", "        entropy = -np.log(pc_conditional(df, by, features))", rule="C13-ENT"),
+    V("grouped-cross-diagonal-zero", DI, "    np.fill_diagonal(\n        data_square, pcDelta_grouped(df, by, seq_columns=seq_columns, **kwargs)\n    )\n", "", rule="C13-PDC"),
+    V("grouped-cross-swapped-groups", DI, "        pcg = pcDelta(d1[seq_columns], d2[seq_columns], **kwargs)", "        pcg = pcDelta(d1[seq_columns], d1[seq_columns], **kwargs)", rule="C13-PDC"),
+    V("base-check-after-use", EN, "    if base is not None and base <= 0:\n        raise ValueError(\"`base` must be a positive number or `None`.\")\n        \n    if not by:", "    if not by:", rule="C13-ENT"),
+    V("silent-log2", EN, "    if base is not None:\n        entropy /= np.log(base) \n    \n    return entropy", "    if base is not None:\n        entropy = entropy / np.log(base)\n    \n    return entropy", expect="silent"),
+    V("silent-weights-algebra", ST, "adjusted_group_weights = (group_weights**2)/np.sum(group_weights**2)", "adjusted_group_weights = group_weights*group_weights/np.sum(group_weights*group_weights)", expect="silent"),
+]
